@@ -53,6 +53,10 @@ class Inputs(object):
         fcsgen.write_sample(self.path, ev.tolist(), ['FSC', 'SSC', 'FL1'], [1024] * 3, bits=16,
                             pne=['0,0', '0,0', '4,1'], pnv=['300', '310', '500'], png=['1', '1', None],
                             extra=[('$BTIM', '10:00:00'), ('$ETIM', '10:01:00'), ('$DATE', '01-Jan-2020')])
+        # the same events in a file that records start and end times but no date, and no time step
+        self.npath = os.path.join(d, 'cells_nodate.fcs')
+        fcsgen.write_sample(self.npath, ev.tolist(), ['FSC', 'SSC', 'FL1'], [1024] * 3, bits=16,
+                            pne=['0,0', '0,0', '4,1'], extra=[('$BTIM', '10:00:00.25'), ('$ETIM', '10:01:12.75')])
         # beads: 4 populations in FL1 (log amplified), tight scatter
         pops = []
         for k, mu in enumerate([150, 350, 550, 750]):
@@ -83,6 +87,11 @@ class Inputs(object):
         with warnings.catch_warnings():
             warnings.simplefilter('ignore')
             return FlowCal.transform.to_rfi(self.raw())
+
+    def nodate(self):
+        with warnings.catch_warnings():
+            warnings.simplefilter('ignore')
+            return FlowCal.io.FCSData(self.npath)
 
     def arr(self, float_=False):
         a = np.asarray(self.raw().view(np.ndarray))
@@ -167,6 +176,9 @@ def registry(I):
     for m in ('acquisition_end_time', 'acquisition_start_time', 'acquisition_time', 'analysis', 'channels', 'data_type',
               'infile', 'text', 'time_step'):
         add('io.FCSData.' + m, 'raw', (lambda m=m: (lambda a: getattr(a['s'], m), {'s': I.raw()})), query=True)
+    # the derived time attributes of a sample whose file has times of day only (no date, no time channel)
+    for m in ('acquisition_end_time', 'acquisition_start_time', 'acquisition_time', 'time_step'):
+        add('io.FCSData.' + m, 'times-without-date', (lambda m=m: (lambda a: getattr(a['s'], m), {'s': I.nodate()})), query=True)
     for state in ('raw', 'rfi'):
         for scale in ('linear', 'log', 'logicle'):
             for lab, ch, nb in (('one', 'FL1', 16), ('all', None, None), ('list', [0, 'FL1'], [8, 9]), ('list-default', ['SSC', 'FL1'], [None, 16])):
